@@ -163,6 +163,23 @@ func init() {
 				cse.TimeoutMS = 60000
 				cs = append(cs, cse)
 			}
+			// the first evaluation is made when triggering starts, however long the rest of the start-up takes: a pool of
+			// 100000 workers, tick interval 50 ms
+			npf := 2
+			if tier == "thorough" {
+				npf = 6
+			}
+			for i := 0; i < npf; i++ {
+				mode := pick(r, "custom", "constant", "staged")
+				p := c09Params{Spec: engine.RateSpec(mode, 1, 50, 100000), Desc: "prompt-first-evaluation mode=" + mode + " c=100000 interval=50ms"}
+				p.Spec.MaxDurationMS = 20000
+				p.Spec.IgnoreDropped = true
+				cse := core.MkCase("C09", "promptfirst", i, seed, p)
+				cse.Solo = true
+				cse.Procs = 16
+				cse.TimeoutMS = 120000
+				cs = append(cs, cse)
+			}
 			nz := 6
 			if tier == "thorough" {
 				nz = 30
@@ -194,7 +211,7 @@ func init() {
 			}
 			return cs
 		},
-		Kinds:  map[string]core.RunFunc{"cadence": c09Cadence, "first": c09First, "zero": c09Zero, "fastticks": c09FastTicks, "lasttick": c09LastTick, "deadfirst": c09DeadFirst},
+		Kinds:  map[string]core.RunFunc{"cadence": c09Cadence, "first": c09First, "promptfirst": c09PromptFirst, "zero": c09Zero, "fastticks": c09FastTicks, "lasttick": c09LastTick, "deadfirst": c09DeadFirst},
 		Floors: map[string]int64{"evaluations_checked": 300, "sum_checked_runs": 10, "first_runs": 4, "zero_runs": 4},
 	})
 }
@@ -413,6 +430,51 @@ func c09First(c *core.Case, o *core.Outcome) {
 	o.AddObs("first_runs", 1)
 	o.Sig("first:mode=%s:procs=%d", p.Spec.Mode, c.Procs)
 	o.Sample = map[string]any{"case": p.Desc, "evaluations": evals.Load(), "started": started.Load(), "run_ms": (r.TReturn - r.TCall).Milliseconds()}
+}
+
+// c09PromptFirst: the delay between the start of triggering and the first evaluation does not grow with the size of the
+// pool. Three runs; the verdict is on the smallest delay (a stall of the machine would have to hit the same few
+// statements three times in a row), against one whole tick interval.
+func c09PromptFirst(c *core.Case, o *core.Outcome) {
+	var p c09Params
+	c.Params(&p)
+	best := time.Duration(1 << 62)
+	for rep := 0; rep < 3; rep++ {
+		l := engine.NewLog()
+		ctx, cancel := context.WithCancel(context.Background())
+		var t0, t1 atomic.Int64
+		base := time.Now()
+		hooks := &engine.Hooks{
+			OnTrigger: func(context.Context) { t0.CompareAndSwap(0, int64(time.Since(base))+1) },
+			OnRate: func(k int, _ time.Time, v int) int {
+				if t1.CompareAndSwap(0, int64(time.Since(base))+1) {
+					cancel()
+				}
+				return 0
+			},
+		}
+		r := engine.Execute(ctx, p.Spec, l, func(t *f1testing.T) f1testing.RunFn { return func(*f1testing.T) {} }, hooks, nil)
+		cancel()
+		if r.NewErr != nil {
+			o.Inconc("harness: cannot build run: %v", r.NewErr)
+			return
+		}
+		if t0.Load() == 0 || t1.Load() == 0 {
+			o.Violate("first:"+p.Desc, "the run ended without a single evaluation (%s)", p.Desc)
+			return
+		}
+		o.Events += 2
+		if d := time.Duration(t1.Load() - t0.Load()); d < best {
+			best = d
+		}
+	}
+	if best > 50*time.Millisecond {
+		o.Violate("first-late:"+p.Desc, "in each of 3 runs the first evaluation came more than a whole tick interval (50 ms) after triggering had started (smallest delay %v): the evaluation due at the start was held up by the rest of the start-up (%s)", best, p.Desc)
+		return
+	}
+	o.AddObs("prompt_first_runs", 3)
+	o.Sig("promptfirst:mode=%s", p.Spec.Mode)
+	o.Sample = map[string]any{"case": p.Desc, "smallest_delay_us": best.Microseconds()}
 }
 
 func c09Zero(c *core.Case, o *core.Outcome) {
